@@ -14,7 +14,8 @@ oracle: a reference history interpreter written from the property text (no Lean,
         executed iff the back end holds nothing under the section's key (or caching is disabled); back-end
         arguments = Template cache_args (+) <%page> cache_* (+) the section's own, timeout an int, context iff
         pass_context; entries belong to the template that created them (a template that replaces another one under
-        its URI is another template).  Fixed families besides the generated worlds: two templates sharing one back
+        its URI is another template; under <%inherit> a section belongs to the template that declares it).  A def
+        called through capture() puts its text into the captured string.  Fixed families besides the generated worlds: two templates sharing one back
         end with URIs that differ only in punctuation; set/get/invalidate on every back end; a URI re-bound by
         put_string, by a file edit + lookup reload, by a recycled memory:0x.. id, with and without cache_timeout.
 A case that hangs (a back end waiting for a lock it holds) is cut off by a per-case watchdog and reported.
@@ -37,7 +38,11 @@ RULE = ("worlds of 1-3 generated templates sharing one back end; a template = op
         "anonymous blocks (anywhere, distinct lines), each cached with p=.6, buffered p=.3, filter p=.25, cache_key "
         "(literal / ${var} / mixed; colliding keys allowed on the recording back end) p=.35, cache_type/foo/timeout/dyn "
         "attributes at template, page and section level; defs take one string argument and are called with literals, "
-        "context variables and enclosing parameters, with and without an expression filter at the call site; "
+        "context variables and enclosing parameters, in four ways: ${f(a)}, ${f(a) | wrapS}, ${capture(f, a)}, "
+        "${capture(f, a) | wrapS} (capture: another buffer is on top while the callable runs); in ~45 % of the multi-template "
+        "worlds without colliding ids template 0 is a BASE template (its body holds ${next.body()}) from which the others "
+        "<%inherit>, calling some of its defs as parent.f(..): same def names and anonymous-block lines in base and children, "
+        "cache operations through base.cache and child.cache, the base is rendered through its children only; "
         "histories of 4-30 ops with contexts over x,y in {1,2,3}; URIs in a world may differ only in punctuation; in ~45 % of "
         "the multi-template worlds (not on dogpile) the last template REPLACES an earlier one under the same URI in mid-history (put_string "
         "again; op P), with and without cache_timeout; a fixed family re-binds a URI by put_string, by a file edit + lookup "
@@ -69,8 +74,10 @@ KINDS = {"page": 0, "topdef": 1, "nested": 2, "nblock": 3, "ablock": 4}
 # =========================================================================== template descriptions
 # parts  : [["l", "lit"], ["v", "x"], ...]
 # sec    : {"kind","name","label","param","cached","buffered","filtered","key":parts|None,"attrs":[[attr,parts]],"body":[node]}
-# node   : ["t", s] | ["v", x] | ["k", tag] | ["c", defname, parts|None, site] | ["d", sec] | ["b", sec]
-# tmpl   : {"uri","cache_args":[[k,v]],"enabled":bool,"has_page":bool,"page":sec[,"late":True,"replaces":index]}
+# node   : ["t", s] | ["v", x] | ["k", tag] | ["c", defname, parts|None, site 0..3[, "parent"]] | ["d", sec] | ["b", sec]
+#          | ["n"]  (${next.body()} in a base template)
+# tmpl   : {"uri","cache_args":[[k,v]],"enabled":bool,"has_page":bool,"page":sec[,"late":True,"replaces":index]
+#           [,"is_base":True][,"inherits":index,"inherits_uri":uri]}
 # op     : ["R",t,{ctx}] ["B",t] ["D",t,d] ["C",t,d] ["X",t,k,kw] ["S",t,k,v,kw] ["G",t,k,kw] ["N",t,b] ["P",t]   kw = [[k,v]]
 #          (P t: the late template t is bound to the URI of the template it replaces now)
 
@@ -123,7 +130,15 @@ def render_nodes(nodes, out):
             out.append("${tick(%r)}" % n[1])
         elif t == "c":
             arg = parts_src_py(n[2]) if n[2] is not None else ""
-            out.append("${%s(%s)%s}" % (n[1], arg, " | wrapS" if n[3] else ""))
+            fn = ("parent." if len(n) > 4 and n[4] == "parent" else "") + n[1]
+            mode = int(n[3])
+            if mode >= 2:           # capture(f, arg): a fresh buffer is on top while f runs
+                call = "capture(%s%s)" % (fn, ", " + arg if arg else "")
+            else:
+                call = "%s(%s)" % (fn, arg)
+            out.append("${%s%s}" % (call, " | wrapS" if mode in (1, 3) else ""))
+        elif t == "n":
+            out.append("${next.body()}")
         else:
             sec = n[1]
             if sec["kind"] == "ablock":
@@ -135,6 +150,8 @@ def render_nodes(nodes, out):
 
 def template_source(td):
     out = [WRAPPERS]
+    if td.get("inherits_uri"):
+        out.append('<%%inherit file="%s"/>' % td["inherits_uri"])
     pg = td["page"]
     if td["has_page"]:
         a = []
@@ -235,7 +252,7 @@ class Gen:
             sec["name"] = "g%d" % self.nnest
             self.nnest += 1
         elif kind == "nblock":
-            sec["name"] = "b%d" % self.nblk
+            sec["name"] = "b%d" % (self.nblk + self.o.get("nblk_base", 0))
             self.nblk += 1
         elif kind == "ablock":
             self.nanon += 1
@@ -290,7 +307,7 @@ class Gen:
                         arg = [["v", r.choice(vars_)]]
                     else:
                         arg = [["l", "w"], ["v", r.choice(vars_)]]
-                    nodes.append(["c", name, arg, r.random() < 0.3])
+                    nodes.append(["c", name, arg, r.choice([0, 0, 0, 0, 0, 1, 1, 2, 3, 3])])
                 else:
                     nodes.append(["t", r.choice(TEXTS)])
             elif c < 0.9 and depth < 3:
@@ -374,6 +391,30 @@ def gen_world(rng, backend, k):
         td = g.template(u)
         template_source(td)
         tds.append(td)
+    # inheritance: template 0 is the base (its body holds ${next.body()}), the others inherit from it and call some of
+    # its defs as parent.f(..); a section uses the cache of the template that declares it
+    inherit = len(tds) >= 2 and not collide and r.random() < 0.45
+    if inherit:
+        base = tds[0]
+        pos = [i for i, n_ in enumerate(base["page"]["body"]) if n_[0] != "d"]
+        base["page"]["body"].insert(r.choice(pos) + 1 if pos else len(base["page"]["body"]), ["n"])
+        base["is_base"] = True
+        bdefs = [s_ for s_ in all_sections(base) if s_["kind"] == "topdef"]
+        for ci in range(1, len(tds)):
+            g = Gen(r, dict(opts, nblk_base=10 * ci))
+            td = g.template(uris[ci])
+            td["inherits"] = 0
+            td["inherits_uri"] = base["uri"]
+            for _ in range(r.randint(0, 3) if bdefs else 0):
+                d = r.choice(bdefs)
+                arg = None
+                if d["param"]:
+                    arg = [["l", r.choice(["a", "b"])]] if r.random() < 0.5 else [["v", r.choice(["x", "y"])]]
+                body = td["page"]["body"]
+                body.insert(r.randint(sum(1 for n_ in body if n_[0] == "d"), len(body)),
+                            ["c", d["name"], arg, r.choice([0, 0, 0, 1, 2, 3]), "parent"])
+            template_source(td)
+            tds[ci] = td
     if backend == "dogpile":
         for i, td in enumerate(tds):
             td["cache_args"] = [kv for kv in td["cache_args"] if kv[0] != "type"] + [["region", "r0"]]
@@ -383,7 +424,7 @@ def gen_world(rng, backend, k):
                     s["attrs"].append(["cache_region", [["l", "r1"]]])
     # takeover: the last template replaces an earlier one under the same URI (a second put_string): it is compiled in
     # the middle of the history (op P) and the replaced one is not used afterwards
-    if backend != "dogpile" and len(tds) >= 2 and r.random() < 0.45:
+    if backend != "dogpile" and len(tds) >= 2 and not inherit and r.random() < 0.45:
         j = len(tds) - 1
         i = r.randrange(j)
         tds[j]["uri"] = tds[i]["uri"]
@@ -432,8 +473,11 @@ def gen_history(r, case, allow_early_inval):
                 del takeover_at[j]
         t = r.choice(active)
         if ops and ops[-1][0] != "R" and ops[-1][1] in active and r.random() < 0.6:
-            # look at the effect of what was just done
-            ops.append(["R", ops[-1][1], {"x": r.choice(VALS), "y": r.choice(VALS)}])
+            # look at the effect of what was just done (for a base template: in one of its children)
+            tt = ops[-1][1]
+            if tds[tt].get("is_base"):
+                tt = r.choice([j for j in active if tds[j].get("inherits") == tt])
+            ops.append(["R", tt, {"x": r.choice(VALS), "y": r.choice(VALS)}])
             continue
         tops, closures, keys = names[t]
         c = r.random()
@@ -447,6 +491,8 @@ def gen_history(r, case, allow_early_inval):
             if case["backend"] == "dogpile" and r.random() < 0.3:
                 res.append(["region", r.choice(["r0", "r1"])])
             return res
+        if tds[t].get("is_base") and (c < 0.4):
+            c = 0.4 + r.random() * 0.6          # a base template is rendered through its children only
         if c < 0.4:
             ops.append(["R", t, {"x": r.choice(VALS), "y": r.choice(VALS)}])
         elif c < 0.47:
@@ -541,14 +587,17 @@ class Oracle:
 
     # -- rendering
     def render(self, t, ctx):
-        self.t = t
+        """a section belongs to the template that declares it: with <%inherit> the base template's body runs (its
+        sections are the base's), ${next.body()} is the rendered template's body, parent.f() a def of the base"""
+        self.rendering = t
         self.ctx = dict(ctx)
         self.ticks = []
         self.calls = []
-        out = self.invoke(self.tds[t]["page"], None, False, dict(ctx), is_block=True)
-        return out
+        base = self.tds[t].get("inherits")
+        root = t if base is None else base
+        return self.invoke(self.tds[root]["page"], None, 0, dict(ctx), True, root)
 
-    def nodes(self, nodes, env):
+    def nodes(self, nodes, env, owner):
         out = []
         for n in nodes:
             k = n[0]
@@ -559,15 +608,18 @@ class Oracle:
             elif k == "k":
                 self.ticks.append(n[1])
             elif k == "c":
-                d = self.defs[self.t][n[1]]
+                o2 = self.tds[owner]["inherits"] if len(n) > 4 and n[4] == "parent" else owner
+                d = self.defs[o2][n[1]]
                 arg = parts_eval(n[2], env) if n[2] is not None else None
-                out.append(self.invoke(d, arg, n[3], env, is_block=False))
+                out.append(self.invoke(d, arg, int(n[3]), env, False, o2))
             elif k == "b":
-                out.append(self.invoke(n[1], None, False, env, is_block=True))
+                out.append(self.invoke(n[1], None, 0, env, True, owner))
+            elif k == "n":
+                if self.rendering != owner:
+                    out.append(self.invoke(self.tds[self.rendering]["page"], None, 0, dict(self.ctx), True, self.rendering))
         return "".join(out)
 
-    def invoke(self, sec, arg, site, env, is_block):
-        t = self.t
+    def invoke(self, sec, arg, site, env, is_block, t):
         if sec["kind"] in ("nested", "ablock"):
             env2 = dict(env)
         else:
@@ -576,7 +628,7 @@ class Oracle:
             env2[sec["param"]] = arg
 
         def uncached():
-            o = self.nodes(sec["body"], env2)
+            o = self.nodes(sec["body"], env2, t)
             return "[" + o + "]" if sec["filtered"] else o
         if not sec["cached"] or not self.enabled[t]:
             v = uncached()
@@ -600,9 +652,15 @@ class Oracle:
         # delivered exactly as the uncached section would deliver it
         if is_block:
             return v        # a block shows its content where it stands, buffered or not
-        if sec["buffered"]:
-            return "<" + v + ">" if site else v
-        return v + ("<>" if site else "")
+        # a def: what it writes / what it returns; capture() gives back what was written and drops the return value
+        w, r = ("", v) if sec["buffered"] else (v, "")
+        if site == 0:
+            return w + r
+        if site == 1:
+            return w + "<" + r + ">"
+        if site == 2:
+            return w
+        return "<" + w + ">"
 
     # -- the other operations
     def direct_kw(self, t, kw):
@@ -1006,7 +1064,22 @@ def w_kw(kw):
     return out
 
 
-def w_hdr(sec):
+def w_attrs(attrs):
+    out = [str(len(attrs))]
+    for a, parts in attrs:
+        out += [enc(a)] + w_parts(parts)
+    return out
+
+
+def w_home(case, owner):
+    """declaring template, given for every header of a world with inheritance"""
+    if owner is None:
+        return ["L"]
+    td = case["templates"][owner]
+    return ["H", str(owner), enc(td["uri"])] + w_kw(td["cache_args"]) + w_attrs(td["page"]["attrs"])
+
+
+def w_hdr(sec, home=("L",)):
     attrs = []
     if sec["cached"]:
         attrs.append(["cached", [["l", "True"]]])
@@ -1018,14 +1091,31 @@ def w_hdr(sec):
     out = [str(KINDS[sec["kind"]]), enc(sec["name"]), str(sec.get("line", 0))]
     out += ["P", enc(sec["param"])] if sec["param"] else ["N"]
     out += ["1" if sec["cached"] else "0", "1" if sec["buffered"] else "0", "1" if sec["filtered"] else "0"]
-    out.append(str(len(attrs)))
-    for a, parts in attrs:
-        out += [enc(a)] + w_parts(parts)
+    out += w_attrs(attrs)
+    out += list(home)
     return out
 
 
-def w_items(nodes, defs, budget):
+class _Exp:
+    """expansion of a world's templates into call trees"""
+
+    def __init__(self, case, rendering):
+        self.case = case
+        self.rendering = rendering
+        self.chain = any(td.get("inherits") is not None for td in case["templates"])
+        self.defs = [{s["name"]: s for s in all_sections(td) if s["kind"] in ("topdef", "nested")} for td in case["templates"]]
+        self.budget = [20000]
+
+    def home(self, owner):
+        return w_home(self.case, owner if self.chain else None)
+
+    def items(self, nodes, owner):
+        return w_items(self, nodes, owner)
+
+
+def w_items(X, nodes, owner):
     out = []
+    budget = X.budget
     for n in nodes:
         k = n[0]
         if k == "t":
@@ -1035,12 +1125,17 @@ def w_items(nodes, defs, budget):
         elif k == "k":
             out += ["K", enc(n[1])]
         elif k == "c":
-            d = defs[n[1]]
-            out += ["I"] + w_hdr(d) + (["A"] + w_parts(n[2]) if n[2] is not None else ["N"]) + ["1" if n[3] else "0"]
-            out += w_items(d["body"], defs, budget)
+            o2 = X.case["templates"][owner]["inherits"] if len(n) > 4 and n[4] == "parent" else owner
+            d = X.defs[o2][n[1]]
+            out += ["I"] + w_hdr(d, X.home(o2)) + (["A"] + w_parts(n[2]) if n[2] is not None else ["N"]) + [str(int(n[3]))]
+            out += w_items(X, d["body"], o2)
         elif k == "b":
             s = n[1]
-            out += ["I"] + w_hdr(s) + ["N", "0"] + w_items(s["body"], defs, budget)
+            out += ["I"] + w_hdr(s, X.home(owner)) + ["N", "0"] + w_items(X, s["body"], owner)
+        elif k == "n":
+            if X.rendering != owner:
+                pg = X.case["templates"][X.rendering]["page"]
+                out += ["I"] + w_hdr(pg, X.home(X.rendering)) + ["N", "0"] + w_items(X, pg["body"], X.rendering)
         budget[0] -= 1
         if budget[0] < 0:
             raise OverflowError("call tree too large")
@@ -1053,9 +1148,13 @@ def w_case(case):
             enc(case["region_key"]), str(len(case["templates"]))]
     for td in case["templates"]:
         template_source(td)
-        defs = {s["name"]: s for s in all_sections(td) if s["kind"] in ("topdef", "nested")}
-        toks += [enc(td["uri"])] + w_kw(td["cache_args"]) + ["1" if td["enabled"] else "0"] + w_hdr(td["page"])
-        toks += w_items(td["page"]["body"], defs, [20000])
+    for t, td in enumerate(case["templates"]):
+        X = _Exp(case, t)
+        root = td.get("inherits")
+        root = t if root is None else root
+        rp = case["templates"][root]["page"]
+        toks += [enc(td["uri"])] + w_kw(td["cache_args"]) + ["1" if td["enabled"] else "0"] + w_hdr(rp, X.home(root))
+        toks += X.items(rp["body"], root)
     toks.append(str(len(case["history"])))
     for op in case["history"]:
         k = op[0]
@@ -1207,6 +1306,34 @@ def valid_case(case):
             o = case["templates"][td["replaces"]]       # bound through one lookup: same URI and cache configuration
             if (td["uri"], td["cache_args"], td["enabled"]) != (o["uri"], o["cache_args"], o["enabled"]):
                 return False
+    for i, td in enumerate(case["templates"]):
+        b = td.get("inherits")
+        calls_parent = ['"parent"' in __import__("json").dumps(td)]
+        if b is None:
+            if calls_parent[0]:
+                return False
+        else:
+            base = case["templates"][b]
+            if not base.get("is_base") or td.get("inherits_uri") != base["uri"]:
+                return False
+            names = {s_["name"]: s_ for s_ in all_sections(base) if s_["kind"] == "topdef"}
+
+            def ok(nodes):
+                for n_ in nodes:
+                    if n_[0] == "c" and len(n_) > 4:
+                        d = names.get(n_[1])
+                        if d is None or (d["param"] is None) != (n_[2] is None):
+                            return False
+                    if n_[0] in ("d", "b") and not ok(n_[1]["body"]):
+                        return False
+                return True
+            if not ok(td["page"]["body"]):
+                return False
+        if td.get("is_base"):
+            if __import__("json").dumps(td).count('["n"]') != 1:
+                return False
+            if any(op[0] == "R" and op[1] == i for op in case["history"]):
+                return False
     # a template that takes over a URI is compiled exactly once, before it is used; the replaced one is not used afterwards
     compiled = set(i for i, td in enumerate(case["templates"]) if not td.get("late"))
     dead = set()
@@ -1237,7 +1364,8 @@ def shrink_case(case, fails0):
     case["history"] = ddmin(case["history"], f_hist, 300)
     # drop whole templates that no remaining op refers to (only from the end, indices stay valid)
     while len(case["templates"]) > 1 and all(op[1] != len(case["templates"]) - 1 for op in case["history"]) \
-            and all(td.get("replaces") != len(case["templates"]) - 1 for td in case["templates"]):
+            and all(td.get("replaces") != len(case["templates"]) - 1 for td in case["templates"]) \
+            and all(td.get("inherits") != len(case["templates"]) - 1 for td in case["templates"]):
         c = _without_keys(case, templates=case["templates"][:-1])
         try:
             if not fails(c):
@@ -1272,7 +1400,7 @@ def shrink_case(case, fails0):
                 if node[0] == "d":
                     # removing a def requires that nothing calls it
                     name = node[1]["name"]
-                    if ('"c", "%s"' % name) in __import__("json").dumps(c["templates"][ti]):
+                    if any(('"c", "%s"' % name) in __import__("json").dumps(td_) for td_ in c["templates"]):
                         continue
                 hoisted = None
                 if node[0] == "b":
@@ -1321,7 +1449,7 @@ def shrink_case(case, fails0):
                         hit = False
                         for n in s["body"]:
                             if n[0] == "c" and n[3]:
-                                n[3] = False
+                                n[3] = 0
                                 hit = True
                         if not hit:
                             continue
@@ -1471,6 +1599,14 @@ def is_nontrivial(case, ref_oracle):
 def histogram(ctx, case, ref):
     ctx.branch("backend:" + case["backend"])
     ctx.branch("templates:%d" % len(case["templates"]))
+    if any(td.get("inherits") is not None for td in case["templates"]):
+        ctx.branch("world:inheritance:%s" % case["backend"])
+        base_cached = sum(1 for s_ in all_sections(case["templates"][0]) if s_["cached"])
+        ctx.branch("world:inheritance:cached-sections-in-base", base_cached)
+        ctx.branch("world:inheritance:parent-calls", __import__("json").dumps(case["templates"]).count('"parent"'))
+    for td in case["templates"]:
+        for m in re.findall(r'\["c", "[a-z0-9]+", (?:null|\[.*?\]\]), (\d)', __import__("json").dumps(td)):
+            ctx.branch("call-site:" + ["plain", "filtered", "captured", "captured+filtered"][int(m)])
     ids = [module_id(td["uri"]) for td in case["templates"]]
     if len(set(ids)) < len(ids):
         ctx.branch("world:colliding-module-ids")
